@@ -90,7 +90,11 @@ func c10Build(in c10Input) ([]mockq.Rec, refmodel.Expr) {
 		if in.Shape == "avg-unwrap" || in.Shape == "nested" {
 			labels = append(labels, mockq.KV{K: "v", V: "2"})
 		}
-		data = append(data, mockq.Rec{TS: (c09Base + int64(i)) * sec, Line: "", Labels: labels})
+		ts := (c09Base + int64(i)) * sec
+		if len(sets) > 12 {
+			ts = c09Base*sec + int64(i)*1e6 // many series: all of them inside the first window
+		}
+		data = append(data, mockq.Rec{TS: ts, Line: "", Labels: labels})
 	}
 	g := c10Groupings[in.Grouping]
 	var e refmodel.Expr
@@ -105,6 +109,17 @@ func c10Build(in c10Input) ([]mockq.Rec, refmodel.Expr) {
 		}
 	case "avg-unwrap":
 		e = &refmodel.RangeAgg{Op: "avg_over_time", Unwrap: "v", RangeNS: 10 * sec, Grouping: g}
+	case "lit-left", "lit-right":
+		// a scalar operation must not touch series identity, whichever side the literal is written on
+		x := &refmodel.VecAgg{Op: "sum", Grouping: g, X: &refmodel.RangeAgg{Op: "count_over_time", RangeNS: 10 * sec}}
+		if g == nil {
+			x.Grouping = &refmodel.Grouping{Without: true, Labels: []string{"zz"}}
+		}
+		if in.Shape == "lit-left" {
+			e = &refmodel.Bin{Op: "*", L: &refmodel.Lit{V: 2}, R: x}
+		} else {
+			e = &refmodel.Bin{Op: "*", L: x, R: &refmodel.Lit{V: 2}}
+		}
 	case "total-or-vector":
 		// two ways of producing the empty label set must agree on its identity
 		e = &refmodel.Bin{Op: "or", L: &refmodel.VecAgg{Op: "sum", X: &refmodel.RangeAgg{Op: "count_over_time", RangeNS: 10 * sec}}, R: &refmodel.Vec{V: 0}}
@@ -217,6 +232,13 @@ func c10Colliding() [][2][]mockq.KV {
 		out = append(out, [2][]mockq.KV{{{K: "a", V: pv[0]}, {K: "c", V: pv[1]}}, {{K: "a", V: pv[1]}, {K: "c", V: pv[0]}}})
 		out = append(out, [2][]mockq.KV{{{K: "ab", V: pv[0]}, {K: "b", V: pv[1]}}, {{K: "ab", V: pv[1]}, {K: "b", V: pv[0]}}})
 	}
+	// a value that spells "value <sep> name <sep> value" of another set, for every byte a keying scheme might use as
+	// its separator (label values are arbitrary bytes: msg is the log line)
+	for _, sep := range []string{"\xff", "\x00", "\xfe", "\x1f", "\x1e", "\x01", ",", "=", "\"", ";", "|", "\n", "\x00\x00", "\xff\xff"} {
+		out = append(out, [2][]mockq.KV{{{K: "a", V: "x" + sep + "n" + sep + "y"}}, {{K: "a", V: "x"}, {K: "n", V: "y"}}})
+		out = append(out, [2][]mockq.KV{{{K: "a", V: "x" + sep + "n" + sep + "y" + sep}}, {{K: "a", V: "x"}, {K: "n", V: "y"}}})
+		out = append(out, [2][]mockq.KV{{{K: "a", V: sep + "n" + sep}}, {{K: "a", V: ""}, {K: "n", V: ""}}})
+	}
 	for i := range sets {
 		for j := i + 1; j < len(sets); j++ {
 			a, b := sets[i], sets[j]
@@ -271,7 +293,7 @@ func c10Run(r *vkit.Run) {
 		if r.Stop() {
 			break
 		}
-		for _, shape := range []string{"count", "sum-count", "avg-unwrap", "nested", "total-or-vector", "vector-unless-total"} {
+		for _, shape := range []string{"count", "sum-count", "avg-unwrap", "nested", "total-or-vector", "vector-unless-total", "lit-left", "lit-right"} {
 			for _, g := range c10GroupingNames {
 				if (shape == "count" || shape == "total-or-vector" || shape == "vector-unless-total") && g != "" {
 					continue // the grammar forbids grouping on count_over_time
@@ -336,6 +358,27 @@ func c10Run(r *vkit.Run) {
 		if len(tu) >= 2 {
 			r.NonTrivial()
 		}
+	}
+	// many series: beyond every small-map / small-slice threshold (9, 17, 65, 300 distinct label sets, plus duplicates)
+	for _, nser := range []int{9, 17, 65, 300} {
+		idx++
+		if !r.Mine(idx) || r.Stop() {
+			continue
+		}
+		var sets [][]mockq.KV
+		for i := 0; i < nser; i++ {
+			sets = append(sets, []mockq.KV{{K: "a", V: fmt.Sprintf("v%d", i%(nser/3+1))}, {K: "c", V: fmt.Sprintf("w%d", i)}})
+		}
+		sets = append(sets, sets[0], sets[nser/2], sets[nser-1]) // three label sets occur twice
+		for _, shape := range []string{"count", "sum-count"} {
+			for _, g := range []string{"", "by(a)", "without(c)", "by(a,c)"} {
+				if shape == "count" && g != "" {
+					continue
+				}
+				c10Check(r, c10Input{Explicit: sets, Shape: shape, Grouping: g, Range: nser < 100, Bound: 0}, nil)
+			}
+		}
+		r.NonTrivial()
 	}
 	r.Count("separator_collision_pairs", int64(len(coll)))
 	r.Note("bounds", fmt.Sprintf("all tuples of 1..%d label sets from a 12-set colliding alphabet x {count_over_time, sum by/without(...) of it, avg_over_time by/without(...)} x 6 groupings x {instant, 3-step range}; all tuples of 10 JSON lines whose label values are numbers, booleans and strings (through | json) x 6 groupings; every map iteration inside Eval is a choice point, deviation bound %d (complete rotation set: all label maps have <= 8 entries)", n, bound))
